@@ -440,7 +440,14 @@ def check_matching(case, v, th, meta, eos, pairs):
         got["t", lev] = call(P.t.findMatching, vw)
         kg, g = got["g", lev]
         kt, t = got["t", lev]
-        cls = (f"{branch}/{bucket}" + ("/near-vMin" if near_vmin else "")
+        thin = ""
+        try:
+            if branch != "detonation" and ref is not None and ref.shock is not None and ref.shock.xi_sh is not None \
+                    and ref.shock.xi_sh - vw < 3e-3:
+                thin = "/thin-shock"     # shock wave thinner than 3e-3 in xi (the listed tight-tolerance finding)
+        except AttributeError:
+            pass
+        cls = (f"{branch}/{bucket}" + thin + ("/near-vMin" if near_vmin else "")
                + ("/vp<1e-3" if (ref is not None and branch != "detonation" and ref.vp < 1e-3 and not near_vmin) else "")
                + ("/cs2=cb2" if eq_cs else "") + f"/{lev}")
         if kg != "num" or kt != "num":
